@@ -438,7 +438,14 @@ func ParseContractFile(path, pkg string) (*ContractFile, error) {
 					}
 				}
 				if m == nil {
-					return nil, fail(i, "assert call=NAME#N [label:] expr  |  assert return=N [label:] expr")
+					// assert back=N: at the end of every iteration of loop N (on each back
+					// edge), where the variables of the loop body are in scope
+					if bm := regexp.MustCompile(`^back=(\d+)\s+(.*)$`).FindStringSubmatch(rest); bm != nil {
+						m = []string{rest, "back$", bm[1], bm[2]}
+					}
+				}
+				if m == nil {
+					return nil, fail(i, "assert call=NAME#N [label:] expr  |  assert return=N [label:] expr  |  assert back=N [label:] expr")
 				}
 				c := &Clause{Kind: "assert", Line: linenos[i]}
 				c.Loop, _ = strconv.Atoi(m[2])
